@@ -1,0 +1,24 @@
+//go:build verif
+
+// Ownership contracts for the process-wide lazies of package syntax (property C11), read by
+// /verif/engine (govc). Comments only. See /repo/rel/verif_contracts_c11.go and /verif/notes/w-c17.md.
+package syntax
+
+//@ guarded syntax.stdSafeScopeVar by stdSafeScopeOnce
+//@ guarded syntax.stdUnsafeScopeVar by stdUnsafeScopeOnce
+//@ guarded syntax.fix by fixOnce
+//@ guarded syntax.fixt by fixOnce
+
+// No `tags`: the implicit safety obligations of these units (panics in StdScope$1, ...) are not C11.
+//@ func FixFuncs()
+//@   ensures[C11] c11unit: true
+//@ func FixFuncs$1()
+//@   ensures[C11] c11unit: true
+//@ func StdScope()
+//@   ensures[C11] c11unit: true
+//@ func StdScope$1()
+//@   ensures[C11] c11unit: true
+//@ func SafeStdScope()
+//@   ensures[C11] c11unit: true
+//@ func SafeStdScope$1()
+//@   ensures[C11] c11unit: true
